@@ -11,9 +11,15 @@ package clickhouse_transpiler
 // defines it. One plan object is processed once per portion of a complex
 // request: every execution must start, and therefore end, with the flag down,
 // otherwise the next statement refers to an alias it never defines.
-//@ func (*AttrConditionPlanner).getCond [C14]
+// The HAVING condition mirrors the query's boolean tree: an inner node becomes
+// `and` for && and `or` otherwise over exactly its children, a leaf tests bit
+// number simpleIdx of the per-trace bit set: bitAnd(bits, 1 << simpleIdx) != 0.
+//@ spec fn isLeafTest(r sql.SQLCondition, idx int) bool = typeis(r, "*sql.LogicalOp") && unbox(r, "*sql.LogicalOp").fn == "!=" && len(unbox(r, "*sql.LogicalOp").clauses) == 2 && typeis(unbox(r, "*sql.LogicalOp").clauses[0], "*bitAnd") && typeis(unbox(unbox(r, "*sql.LogicalOp").clauses[0], "*bitAnd").right, "*sql.IntVal") && unbox(unbox(unbox(r, "*sql.LogicalOp").clauses[0], "*bitAnd").right, "*sql.IntVal").val == int64(1) << idx && typeis(unbox(r, "*sql.LogicalOp").clauses[1], "*sql.IntVal") && unbox(unbox(r, "*sql.LogicalOp").clauses[1], "*sql.IntVal").val == 0
+//@ func (*AttrConditionPlanner).getCond [C11,C14]
 //@   modifies a.isAliased
 //@   ensures flag-only-raised: old(a.isAliased) ==> a.isAliased
+//@   ensures inner-node: result1 == nil && c.simpleIdx == -1 ==> typeis(result0, "*sql.LogicalOp") && unbox(result0, "*sql.LogicalOp").fn == (c.op == "&&" ? "and" : "or") && len(unbox(result0, "*sql.LogicalOp").clauses) == len(c.complex)
+//@   ensures leaf: result1 == nil && c.simpleIdx != -1 ==> isLeafTest(result0, c.simpleIdx)
 //@   loop 1:
 //@     invariant old(a.isAliased) ==> a.isAliased
 //@     modifies a.isAliased, elems(subs)
@@ -24,3 +30,20 @@ package clickhouse_transpiler
 //@ func (*AttrConditionPlanner).Process [C14]
 //@   requires starts-unaliased: !a.isAliased
 //@   ensures ends-unaliased: result1 == nil ==> !a.isAliased
+
+// A string term: the key equality and-ed with the value comparison the
+// operator names (= / != on the value, =~ / !~ as a regular-expression match
+// compared with 1 / 0).
+//@ spec fn keyIs(r sql.SQLObject, key string) bool = typeis(r, "*sql.LogicalOp") && unbox(r, "*sql.LogicalOp").fn == "==" && len(unbox(r, "*sql.LogicalOp").clauses) == 2 && typeis(unbox(r, "*sql.LogicalOp").clauses[0], "*sql.RawObject") && unbox(unbox(r, "*sql.LogicalOp").clauses[0], "*sql.RawObject").val == "key" && typeis(unbox(r, "*sql.LogicalOp").clauses[1], "*sql.StringVal") && unbox(unbox(r, "*sql.LogicalOp").clauses[1], "*sql.StringVal").val == key
+//@ spec fn valCmp(r sql.SQLObject, op string) bool = typeis(r, "*sql.LogicalOp") && unbox(r, "*sql.LogicalOp").fn == op && len(unbox(r, "*sql.LogicalOp").clauses) == 2 && typeis(unbox(r, "*sql.LogicalOp").clauses[0], "*sql.RawObject") && unbox(unbox(r, "*sql.LogicalOp").clauses[0], "*sql.RawObject").val == "val" && typeis(unbox(r, "*sql.LogicalOp").clauses[1], "*sql.StringVal")
+//@ spec fn reCmp(r sql.SQLObject, want int64) bool = typeis(r, "*sql.LogicalOp") && unbox(r, "*sql.LogicalOp").fn == "==" && len(unbox(r, "*sql.LogicalOp").clauses) == 2 && typeis(unbox(r, "*sql.LogicalOp").clauses[0], "*matchRe") && typeis(unbox(r, "*sql.LogicalOp").clauses[1], "*sql.IntVal") && unbox(unbox(r, "*sql.LogicalOp").clauses[1], "*sql.IntVal").val == want
+//@ func (*AttrConditionPlanner).getString
+//@   modifies nothing
+//@ func (*AttrConditionPlanner).getTermStr [C11]
+//@   modifies nothing
+//@   ensures shape: result1 == nil ==> typeis(result0, "*sql.LogicalOp") && unbox(result0, "*sql.LogicalOp").fn == "and" && len(unbox(result0, "*sql.LogicalOp").clauses) == 2 && keyIs(unbox(result0, "*sql.LogicalOp").clauses[0], key)
+//@   ensures equals: result1 == nil && t.Op == "=" ==> valCmp(unbox(result0, "*sql.LogicalOp").clauses[1], "==")
+//@   ensures differs: result1 == nil && t.Op == "!=" ==> valCmp(unbox(result0, "*sql.LogicalOp").clauses[1], "!=")
+//@   ensures matches: result1 == nil && t.Op == "=~" ==> reCmp(unbox(result0, "*sql.LogicalOp").clauses[1], 1)
+//@   ensures matches-not: result1 == nil && t.Op == "!~" ==> reCmp(unbox(result0, "*sql.LogicalOp").clauses[1], 0)
+//@   ensures other-operators-rejected: t.Op != "=" && t.Op != "!=" && t.Op != "=~" && t.Op != "!~" ==> result1 != nil
